@@ -132,7 +132,14 @@ def monitor(ctx, spec, out):
             ctx.violation(dict(sig, kind="infeasible-best"), dict(spec=dunit.spec_full(spec)), "best_para violates the constraints")
 
 
+def pre_build(ctx):
+    import gen_units
+    gen_units.pre_build(ctx, "translate_coreopt")
+
+
 def run(ctx):
+    import gen_units
+    gen_units.g_unit(ctx, "translate_coreopt")
     core_units.run(ctx, which="C02")
     ctx.monitor_rule = ("every parameter set handed to the objective satisfies the constraint (half-spaces, parity / band lattices, "
                         "random masks, constraints coupling several parameters with long iteration phases; feasible fraction >= 25%), best_para too; all 22 optimizers, both grid directions, "
